@@ -15,6 +15,8 @@ for f in sys.argv[1:]:
     m["check_result"] = r.get("check", [])
     if m.get("obsolete_after"):
         print(sid, "obsolete (kept as is)"); continue
+    if m.get("caught_by") and not r.get("caught"):
+        print(sid, "caught by another property's check (kept as is):", m["caught_by"]); continue
     m["caught_by_check"] = bool(r.get("caught"))
     if "demo_changed_exit" in r:
         m.setdefault("confirmed", {})["demo_fails_on_changed_tree"] = r["demo_changed_exit"] != 0
